@@ -377,6 +377,56 @@ def lua_stage(ck, gvh, n):
     return nviol
 
 
+def coq_crosscheck(ck, cases, model_lines, k=150):
+    """Extraction cross-check: re-evaluate k histories INSIDE Coq (vm_compute on Ctx/Model.v) and compare the final
+    manager state with what the extracted OCaml oracle printed.  Bounds the trust in extraction + driver glue."""
+    import os
+    step = max(1, len(cases) // k)
+    picks = list(range(0, len(cases), step))[:k]
+    def z(v):
+        return "(%d)%%Z" % v
+    def op_coq(o):
+        if o[0] == "P":
+            return "OPush (mkDef (mkRes %s %s 0) (mkRes %s %s 0) %d%%N %s)" % (z(o[1]), z(o[2]), z(o[3]), z(o[4]), o[5], "true" if o[6] else "false")
+        if o[0] == "O":
+            return "OPop"
+        if o[0] == "C":
+            return "OCpu %s" % z(o[1])
+        if o[0] == "M":
+            return "OMem %s" % z(o[1])
+        if o[0] == "R":
+            return "ORel %s" % z(o[1])
+        return "OStop %d%%N" % o[1]
+    rows = []
+    for i in picks:
+        if i >= len(model_lines):
+            continue
+        last = parse_out(model_lines[i])[-1]
+        chain = last[1]
+        cur = chain[0]
+        stc = {"live": "Live", "done": "Done", "error": "Err", "killed": "Killed"}[cur["st"]]
+        hist = "[" + "; ".join("(0%%Z, %s)" % op_coq(o) for o in cases[i]) + "]"
+        rows.append("(%s, (%s, %s, %s, %s, %s, %d%%nat))" % (hist, z(cur["uc"]), z(cur["um"]), z(cur["hc"]), z(cur["hm"]), stc, len(chain) - 1))
+    src = ("From Coq Require Import ZArith List Bool.\nFrom GV Require Import Ctx.Model.\nImport ListNotations.\nOpen Scope Z_scope.\n"
+           "Definition chk (c : list (Z * op) * (Z * Z * Z * Z * status * nat)) : bool :=\n"
+           "  let '(h, (uc, um, hc, hm, s, d)) := c in let m := run init h in\n"
+           "  (cpu (used (cur m)) =? uc) && (mem (used (cur m)) =? um) && (cpu (hard (cur m)) =? hc) && (mem (hard (cur m)) =? hm)\n"
+           "  && status_eqb (st (cur m)) s && Nat.eqb (length (parents m)) d.\n"
+           "Definition cases : list (list (Z * op) * (Z * Z * Z * Z * status * nat)) := [\n" + ";\n".join(rows) + "].\n"
+           "Definition bad := Eval vm_compute in length (filter (fun c => negb (chk c)) cases).\nPrint bad.\n")
+    d = os.path.join(vlib.WORK, "C07")
+    os.makedirs(d, exist_ok=True)
+    fn = os.path.join(d, "cases.v")
+    open(fn, "w").write(src)
+    rc, so, se = vlib.sh(["coqc", "-R", os.path.join(vlib.COQ, "theories"), "GV", fn], cwd=d, timeout=900)
+    ok = rc == 0 and "bad = 0" in so.replace("\n", " ")
+    ck.cov["extraction_crosscheck"] = {"histories_reevaluated_in_coq": len(rows), "agree": ok}
+    if not ok:
+        ck.violation("extracted oracle and in-Coq evaluation of Ctx/Model.v disagree (extraction/driver glue cannot be trusted)",
+                     {"kind": "oracle", "coqc_rc": rc, "out": (so + se)[-1500:]}, no_input=True)
+    return ok
+
+
 def run(tier, seed):
     ck = vlib.Check("C07", tier, seed, level="proof")
     ok_obl = ck.obligations(PROP, clean=False)
@@ -464,6 +514,8 @@ def run(tier, seed):
     for i in (0, ncorpus + 5, ncorpus + nenum + 1, len(cases) - 1):
         if 0 <= i < len(impl):
             ck.sample({"history": lines[i].split(" ", 1)[1], "impl": impl[i].split(" ", 1)[1][:400]})
+    if rc2 == 0 and len(model) == len(lines):
+        coq_crosscheck(ck, cases, model, k=(40 if tier == "quick" else 600))
     lua_fail = lua_stage(ck, ck.build_gvh()[0], 400 if tier == "quick" else 6000)
     ck.cov["lua_level_failures"] = lua_fail
     pred_fail += lua_fail
